@@ -145,7 +145,11 @@ fn conv_labels<L: Lab>(ls: &[i64]) -> Vec<L> {
     ls.iter().filter_map(|i| L::from_i(*i)).collect()
 }
 fn map_fn(which: i64, x: i64) -> usize {
-    (if which == 0 { x + 1 } else { x / 2 }) as usize
+    (match which {
+        0 => x + 1,
+        1 => x / 2,
+        _ => (2 * x + 1) % 3, // 0,1,2 -> 1,0,2: not monotone
+    }) as usize
 }
 
 // ---------------------------------------------------------------------------------------------
